@@ -10,9 +10,9 @@ extern "C" {
 }
 
 #if VP_SUB == 1
-enum { L_ADD, L_DEL, L_ROT_SHORT, L_ROT_LONG, L_MOV, L_SET, L_SWAP_SAME, L_SWAP_CROSS, L_SEC_DEL, L_SEC_ADD, L_SEC_SET, L_SEC_SWAP, L_SEC_SWAP_CROSS, L_LEN12, L_FORSAFE };
+enum { L_ADD, L_DEL, L_ROT_SHORT, L_ROT_LONG, L_MOV, L_SET, L_SWAP_SAME, L_SWAP_CROSS, L_SEC_DEL, L_SEC_ADD, L_SEC_SET, L_SEC_SWAP, L_SEC_SWAP_CROSS, L_LEN12, L_FORSAFE, L_SEC_LOOP };
 static char const *const labels[] = {"add", "del", "rot_on_len_le_1", "rot_on_len_ge_3", "mov", "set_node", "swap_node_same_ring", "swap_node_cross_ring",
-                                     "section_del", "section_add", "section_set", "section_swap_same_ring", "section_swap_cross_ring", "ring_len_ge_12", "removal_safe_iteration", nullptr};
+                                     "section_del", "section_add", "section_set", "section_swap_same_ring", "section_swap_cross_ring", "ring_len_ge_12", "removal_safe_iteration", "detached_chain_closed_with_a_list_loop", nullptr};
 #define UNIT "list"
 #else
 enum { L_ADD, L_DEL, L_ROT_SHORT, L_ROT_LONG, L_MOV_SHORT, L_MOV_LONG, L_MOV_AT_TAIL, L_DEL_TAIL, L_ADD_TAIL, L_LEN12, L_FORSAFE };
@@ -266,6 +266,28 @@ static void run_case(Tape &t, Ctx &cx)
             cx.label(L_SEC_DEL);
             sec = true;
             cx.log("ring%d section del_[%zu..%zu]\n", r, i, i + len - 1);
+            if (t.coin())
+            {
+                // a_list_loop closes the detached chain into a ring of its own: walking next from its first node visits the
+                // chain in order and returns, walking prev visits it backwards (the chain stays detached from both heads)
+                std::vector<int> const &ch = s.chains.back();
+                a_list *first = s.node[ch.front()], *last = s.node[ch.back()];
+                a_list_loop(first, last);
+                a_list *w = first;
+                for (size_t k = 0; k < ch.size(); ++k)
+                {
+                    VP_CHECK(cx, w == s.node[ch[k]], "list:loop", "a_list_loop on a detached chain of %zu: forward walk leaves the chain at step %zu", ch.size(), k);
+                    w = w->next;
+                }
+                VP_CHECK(cx, w == first && first->prev == last, "list:loop", "a_list_loop on a detached chain of %zu nodes does not close it", ch.size());
+                w = last;
+                for (size_t k = ch.size(); k-- > 0;)
+                {
+                    VP_CHECK(cx, w == s.node[ch[k]], "list:loop", "a_list_loop on a detached chain of %zu: backward walk leaves the chain at step %zu", ch.size(), k);
+                    w = w->prev;
+                }
+                cx.label(L_SEC_LOOP);
+            }
             break; }
         case 12: {
             // section add_ / set_ with a detached chain
